@@ -687,6 +687,13 @@ func (fr *Frame) loopBack(l *loopInfo, from *ssa.BasicBlock, st *State) {
 	if spec == nil {
 		return
 	}
+	if len(spec.BackAsserts) > 0 {
+		benv := fr.loopEnv(st, fr.entrySt, l, phiBack)
+		for _, cl := range spec.BackAsserts {
+			vc.oblig(fr, st, "inv-preserve", fmt.Sprintf("%d:continues-only-if:%s", l.ordinal, cl.Label), "", benv.boolTerm(cl.Expr), blockPos(l.header))
+		}
+		vc.reportEnvErrors(benv)
+	}
 	env := fr.loopEnv(st, fr.entrySt, l, phiBack)
 	for _, cl := range spec.Invariants {
 		if knownLoopInv[fmt.Sprintf("%s|%d:%s", fr.key, l.ordinal, cl.Label)] {
